@@ -16,6 +16,41 @@ from .ir import is_expr, show, subexprs, stmts, callee, match, ANY
 from .paths import all_sites, local_defs, always_exits, has_break, ASSIGN_OPS
 
 
+def index_loops(fn):
+    """{index variable: range expr} for counting loops `for (T i = 0; i < R.size(); ++i)` whose body never writes i and
+    where the name is not reused for a loop over a different range: such a loop is the same as a range-for over R."""
+    out = {}
+    bad = set()
+    for st in stmts(fn.body):
+        if st.get("k") != "for":
+            continue
+        init, c, inc = st.get("init"), st.get("c"), st.get("inc")
+        if not (isinstance(init, dict) and init.get("k") == "decl" and init.get("n") and match(["int", 0], init.get("i"))):
+            continue
+        i = init["n"]
+        okc = is_expr(c) and c[0] == "b" and c[1] == "<" and match(["local", i], c[2]) and is_expr(c[3]) and c[3][0] in ("mcall", "vcall") and \
+            len(c[3]) == 3 and c[3][1].endswith("::size")
+        oki = is_expr(inc) and inc[0] == "u" and inc[1] in ("++", "post++") and match(["local", i], inc[2])
+        written = any(x[0] == "b" and x[1] in ASSIGN_OPS and match(["local", i], x[2]) or (x[0] == "u" and x[1] in ("++", "--", "post++", "post--", "&") and match(["local", i], x[2]))
+                      for _, e in ((None, e2) for s2 in stmts(st.get("b")) for _, e2 in __import__("sa.engine.ir", fromlist=["stmt_exprs"]).stmt_exprs(s2)) for x in subexprs(e))
+        if not (okc and oki) or written:
+            bad.add(i)
+            continue
+        r = c[3][2]
+        if i in out and F.key(out[i]) != F.key(r):
+            bad.add(i)
+        out[i] = r
+    # a name also used by a non-conforming loop (or declared elsewhere) is not normalised
+    decls = {}
+    for st in stmts(fn.body):
+        if st.get("k") == "decl" and st.get("n"):
+            decls[st["n"]] = decls.get(st["n"], 0) + 1
+    for i in list(out):
+        if i in bad:
+            del out[i]
+    return out
+
+
 def naming(fn, program=None):
     """Substitution making atoms independent of most local names: single-definition locals -> their
     initialiser; range-for variables -> each(<range>); structured bindings -> bindN(<init>);
@@ -33,6 +68,9 @@ def naming(fn, program=None):
         if st.get("k") == "decl" and st.get("binds") and is_expr(st.get("i")):
             for i, b in enumerate(st["binds"]):
                 subst[b] = ["bind%d" % i, st["i"]]
+    idx = index_loops(fn)
+    if idx:
+        subst["@idx"] = idx        # R[i] inside such a loop is rendered each(R) (see formula.expand)
     return subst
 
 
@@ -99,6 +137,10 @@ def loop_range_key(loop, subst=None):
         return "each(%s)" % F.key(F.expand(loop.get("range"), subst))
     if k == "for":
         init = loop.get("init") or {}
+        idx = (subst or {}).get("@idx") or {}
+        if isinstance(init, dict) and init.get("n") in idx and is_expr(loop.get("c")) and len(loop["c"]) > 3 and is_expr(loop["c"][3]) and \
+                len(loop["c"][3]) == 3 and F.key(loop["c"][3][2]) == F.key(idx[init["n"]]):
+            return "each(%s)" % F.key(F.expand(idx[init["n"]], {k2: v for k2, v in (subst or {}).items() if k2 != "@idx"}))
         start = show(init.get("i")) if isinstance(init, dict) and is_expr(init.get("i")) else "?"
         return "for(%s; %s)" % (start, F.fshow(F.to_formula(loop.get("c"), {k2: v for k2, v in (subst or {}).items() if k2 != (init.get("n") if isinstance(init, dict) else None)})) if is_expr(loop.get("c")) else "")
     if k == "while":
